@@ -145,6 +145,54 @@ def _planar_shortcut(run, ix):
                                      f"The baked path is displaced (or loses its offset) relative to the node transform", key=key_of("C10-R8", "planar-clip"))
 
 
+def _append_state(run, ix):
+    """append_scenes renames the nodes of each appended scene through a closure that records `old name -> new name` and the
+    names used by the scene being appended.  Both are facts about ONE scene: a table that survives into the next scene
+    sends that scene's nodes to names minted for an earlier one (its edges are re-attached to another scene's subtree).
+    Rule: every container the closure writes is re-created or cleared inside the loop over the appended scenes; the only
+    state that may live across iterations is what the loop itself accumulates outside the closure."""
+    run.rule("R9", "append_scenes: every container written by the node-renaming closure (remap table, names used by the current scene) is re-created or "
+                   "cleared for each appended scene; only the loop's own accumulators live across scenes")
+    f = ix.func("trimesh.scene.scene:append_scenes")
+    loops = [st for st in f.node.body if isinstance(st, ast.For) and ast.unparse(st.iter) == (f.params[0] if f.params else "iterable")]
+    if len(loops) != 1 or not f.nested:
+        run.instance("R9", f.where, "append_scenes: no single loop over the appended scenes with a renaming closure - NOT decided", True, nontrivial=False)
+        run.assume("append_scenes: loop over the appended scenes / renaming closure not in a recognised form")
+        return
+    loop = loops[0]
+    called = {c.func.id for c in ast.walk(loop) if isinstance(c, ast.Call) and isinstance(c.func, ast.Name)}
+    n = 0
+    for g in f.nested.values():
+        if g.name not in called:
+            continue
+        local = set(g.params) | {x.id for x in ast.walk(g.node) if isinstance(x, ast.Name) and isinstance(x.ctx, ast.Store)}
+        written = {}
+        for x in ast.walk(g.node):
+            if isinstance(x, ast.Assign) and isinstance(x.targets[0], ast.Subscript) and isinstance(x.targets[0].value, ast.Name):
+                written.setdefault(x.targets[0].value.id, "item store")
+            elif isinstance(x, ast.Call) and isinstance(x.func, ast.Attribute) and isinstance(x.func.value, ast.Name) \
+                    and x.func.attr in ("add", "append", "update", "setdefault", "extend", "insert"):
+                written.setdefault(x.func.value.id, f".{x.func.attr}()")
+        for name, how in sorted(written.items()):
+            if name in local:
+                continue
+            n += 1
+            reset = False
+            for st in ast.walk(loop):
+                if isinstance(st, ast.Assign) and any(isinstance(t, ast.Name) and t.id == name for t in st.targets):
+                    reset = True
+                elif isinstance(st, ast.Call) and isinstance(st.func, ast.Attribute) and st.func.attr == "clear" \
+                        and isinstance(st.func.value, ast.Name) and st.func.value.id == name:
+                    reset = True
+            run.instance("R9", g.where, f"`{name}` (written by {g.name}: {how}) is re-created / cleared per appended scene", reset)
+            if not reset:
+                run.violation("R9", g.where, f"`{name}` is written by `{g.name}` ({how}) for every node of every appended scene but is never re-created or cleared inside "
+                                             f"the loop over the scenes: what it recorded for one scene is applied to the next (a node name seen in an earlier scene "
+                                             f"is sent to the name minted there)", key=key_of("C10-R9", "append-state", name))
+    if n == 0:
+        run.instance("R9", f.where, "the renaming closure writes no enclosing container - NOT decided", True, nontrivial=False)
+
+
 def check(run):
     ix = Index(run.repo)
     ef = Effects(ix)
@@ -316,6 +364,9 @@ def check(run):
     # ---- R8 baking a 2D path: the planar shortcut agrees with the full transform on the plane
     run.rule("R8", "Scene.dump: for every matrix that passes the planarity test, applying the clipped 3x3 to (x, y) equals applying the 4x4 to (x, y, 0) (symbolic identity over the entries the test ignores)")
     _planar_shortcut(run, ix)
+
+    # ---- R9 append_scenes: name-remap state written by the per-node closure is per appended scene
+    _append_state(run, ix)
 
     # ---- R7
     raw_reads(run, ix, ef, "R7", "C10", module_filter=lambda m: m.startswith("trimesh.scene"), floor=0)
